@@ -301,8 +301,11 @@ func langPagedApp(t *tape.Tape) *app.App {
 	a.Ext = append(a.Ext,
 		&app.ExtSym{Name: "sx", Size: 0, Script: []app.ExtBehav{{Sink: true, Rows: rows}}},
 		&app.ExtSym{Name: "sl", Size: 8, Script: []app.ExtBehav{{Len: -1, Lang: "nor", Set: []uint32{7}}}}) // 7 = LANG
-	a.Labels["ln"] = map[string]string{"": "nx", "nor": "neste side " + strings.Repeat("e", t.Range(0, 12))}
-	a.Labels["lp"] = map[string]string{"": "pv", "nor": "forrige side " + strings.Repeat("e", t.Range(0, 12))}
+	a.Labels["ln"] = map[string]string{"": "nx", "nor": []string{"neste side ", "neste"}[t.Int(2)] + strings.Repeat("e", t.Range(0, 12))}
+	a.Labels["lp"] = map[string]string{"": "pv", "nor": []string{"forrige side ", "forr"}[t.Int(2)] + strings.Repeat("e", t.Range(0, 12))}
+	// in half the runs every node carries the same two browse lines (an author's boilerplate): the browse
+	// settings are then the same from node to node, also across the node that switches the language
+	everywhere := t.Chance(1, 2)
 	a.Nodes = append(a.Nodes, &app.Node{Name: "root", Kind: app.KMenu, Tpl: map[string]string{"": "@root|pick$", "nor": "@root~nor|velg$"}, Code: []app.Inst{
 		{Op: app.MOUT, A: "la", B: "1"}, {Op: app.MOUT, A: "lb", B: "2"}, {Op: app.HALT},
 		{Op: app.INCMP, A: "np", B: "1"}, {Op: app.INCMP, A: "nl", B: "2"}}})
@@ -312,6 +315,13 @@ func langPagedApp(t *tape.Tape) *app.App {
 	a.Nodes = append(a.Nodes, &app.Node{Name: "nl", Kind: app.KMenu, Tpl: map[string]string{"": "@nl|switched$", "nor": "@nl~nor|byttet$"}, Code: []app.Inst{
 		{Op: app.LOAD, A: "sl", N: 8}, {Op: app.MOUT, A: "lc", B: "0"}, {Op: app.HALT}, {Op: app.INCMP, A: "_", B: "0"}}})
 	a.Nodes = append(a.Nodes, &app.Node{Name: "_catch", Kind: app.KCatch, Tpl: map[string]string{"": "@_catch|oops$"}, Code: []app.Inst{{Op: app.HALT}, {Op: app.MOVE, A: "_"}}})
+	if everywhere {
+		for _, n := range a.Nodes {
+			if n.Name == "root" || n.Name == "nl" {
+				n.Code = append([]app.Inst{{Op: app.MNEXT, A: "ln", B: "11"}, {Op: app.MPREV, A: "lp", B: "22"}}, n.Code...)
+			}
+		}
+	}
 	a.Index()
 	return a
 }
